@@ -101,25 +101,35 @@ void MatrixSparse::resetFromTriplet(const NF_Triplet& NF_T) { (void)NF_T; R_call
 alignas(16) static char pmbuf[sizeof(ProjMatrix)];
 
 // ---------------------------------------------------------------- exact 3x3 inverse on the real (Eigen) storage
+// A^-1 = E adj(B) / det(B) with B = A E, E = "subtract column 0 from columns 1 and 2" (valid for every invertible A;
+// written this way because the differences of corner coordinates are formed before any product)
 int AMatrixDense::_invert()
 {
   if (getNRows() != NC || getNCols() != NC) { T_bad++; return 1; }
-  double a[NC][NC], c[NC][NC];
+  double b[NC][NC], c[NC][NC];
   for (int i = 0; i < NC; i++)
-    for (int j = 0; j < NC; j++) a[i][j] = _eigenMatrix(i, j);
-  c[0][0] = a[1][1] * a[2][2] - a[1][2] * a[2][1];
-  c[0][1] = a[1][2] * a[2][0] - a[1][0] * a[2][2];
-  c[0][2] = a[1][0] * a[2][1] - a[1][1] * a[2][0];
-  c[1][0] = a[0][2] * a[2][1] - a[0][1] * a[2][2];
-  c[1][1] = a[0][0] * a[2][2] - a[0][2] * a[2][0];
-  c[1][2] = a[0][1] * a[2][0] - a[0][0] * a[2][1];
-  c[2][0] = a[0][1] * a[1][2] - a[0][2] * a[1][1];
-  c[2][1] = a[0][2] * a[1][0] - a[0][0] * a[1][2];
-  c[2][2] = a[0][0] * a[1][1] - a[0][1] * a[1][0];
-  double det = a[0][0] * c[0][0] + a[0][1] * c[0][1] + a[0][2] * c[0][2];
+  {
+    b[i][0] = _eigenMatrix(i, 0);
+    b[i][1] = _eigenMatrix(i, 1) - _eigenMatrix(i, 0);
+    b[i][2] = _eigenMatrix(i, 2) - _eigenMatrix(i, 0);
+  }
+  c[0][0] = b[1][1] * b[2][2] - b[1][2] * b[2][1]; // cofactors of B
+  c[0][1] = b[1][2] * b[2][0] - b[1][0] * b[2][2];
+  c[0][2] = b[1][0] * b[2][1] - b[1][1] * b[2][0];
+  c[1][0] = b[0][2] * b[2][1] - b[0][1] * b[2][2];
+  c[1][1] = b[0][0] * b[2][2] - b[0][2] * b[2][0];
+  c[1][2] = b[0][1] * b[2][0] - b[0][0] * b[2][1];
+  c[2][0] = b[0][1] * b[1][2] - b[0][2] * b[1][1];
+  c[2][1] = b[0][2] * b[1][0] - b[0][0] * b[1][2];
+  c[2][2] = b[0][0] * b[1][1] - b[0][1] * b[1][0];
+  double det = b[0][0] * c[0][0] + b[0][1] * c[0][1] + b[0][2] * c[0][2];
   if (det == 0.) return 1;
-  for (int i = 0; i < NC; i++)
-    for (int j = 0; j < NC; j++) _eigenMatrix(i, j) = c[j][i] / det;
+  for (int j = 0; j < NC; j++) // B^-1(i,j) = c[j][i] / det ; A^-1 = E B^-1 : row 0 minus rows 1 and 2
+  {
+    _eigenMatrix(0, j) = (c[j][0] - c[j][1] - c[j][2]) / det;
+    _eigenMatrix(1, j) = c[j][1] / det;
+    _eigenMatrix(2, j) = c[j][2] / det;
+  }
   return 0;
 }
 
@@ -179,10 +189,7 @@ static void run(bool exact)
     double t  = (P[d] - X0[d]) / DX[d];
     double c  = floor(t + eps); // the start node coordinateToIndicesInPlace computes: 0, 1 or 2 (upper border)
     if (c != floor(t)) inband = true;
-    vf_split(c == 0.); // solver hint only: case analysis over the start node
-    vf_split(c == 1.);
   }
-  vf_split(polar);
   if (exact) vf_assume(!inband);
 
   m->MeshETurbo::resetProjMatrix((ProjMatrix*)pmbuf, DB, -1, false); // REAL code
@@ -197,8 +204,9 @@ static void run(bool exact)
   if (A_n > NC) vf_assert_id(A_val[NC] == 0. && A_row[NC] == 0 && A_col[NC] == NNODE - 1, "the extra entry is the dimension-forcing zero");
   if (A_n >= NC)
   {
-    // sc[d] = sum_i w_i (node_i,d - point_d): 0 for exact barycentric weights of the point whatever their sum
-    double sum = 0., sc[ND] = {0., 0.};
+    // su[d] = sum_i w_i * index_d(node_i): the point reproduced in mesh units from the origin, (p_d - x0_d)/dx_d.
+    // Together with sum_i w_i == 1 this is sum_i w_i node_i == p for the nodes x0 + index * dx (affine exactness).
+    double sum = 0., su[ND] = {0., 0.};
     bool   interior = true; // no weight on a bound of [0,1]: _addWeights has clipped nothing
     for (int i = 0; i < NC; i++)
     {
@@ -206,14 +214,15 @@ static void run(bool exact)
       vf_assert_id(A_col[i] >= 0 && A_col[i] < NNODE, "columns are grid nodes");
       vf_assert_id(A_val[i] >= 0. && A_val[i] <= 1., "weights are in [0,1]");
       if (!(A_val[i] > 0. && A_val[i] < 1.)) interior = false;
-      // node coordinates from the column (no mask: apex = grid rank, first dimension fastest), independent of the code
-      int i1 = 0;
-      for (int k = 1; k < NX; k++)
-        if (A_col[i] >= k * NX) i1 = k;
-      int i0 = A_col[i] - i1 * NX;
       sum += A_val[i];
-      sc[0] += A_val[i] * (X0[0] + i0 * DX[0] - P[0]);
-      sc[1] += A_val[i] * (X0[1] + i1 * DX[1] - P[1]);
+      // node indices from the column (no mask: apex = grid rank, first dimension fastest), independent of the code
+      for (int i1 = 0; i1 < NX; i1++)
+        for (int i0 = 0; i0 < NX; i0++)
+          if (A_col[i] == i0 + NX * i1)
+          {
+            su[0] += i0 * A_val[i];
+            su[1] += i1 * A_val[i];
+          }
     }
     vf_assert_id(A_col[0] != A_col[1] && A_col[0] != A_col[2] && A_col[1] != A_col[2], "the three columns are distinct nodes");
     // _addWeights accepts solved weights in [-eps, 1+eps] and clips them to [0,1]: each weight is within eps of the exact one
@@ -221,12 +230,16 @@ static void run(bool exact)
     vf_assert_id(req(sum, 1., 1.), "MUT: sum exactly one");
 #endif
     vf_assert_id(sum - 1. <= NC * eps && 1. - sum <= NC * eps, "weights sum to one (within ncorner * EPSILON6, the acceptance guard of _addWeights)");
+    double u[ND];
     for (int d = 0; d < ND; d++)
-      vf_assert_id(sc[d] <= 2 * NC * eps * DX[d] && -sc[d] <= 2 * NC * eps * DX[d],
+    {
+      u[d] = (P[d] - X0[d]) / DX[d];
+      vf_assert_id(su[d] - u[d] <= 2 * NC * eps && u[d] - su[d] <= 2 * NC * eps,
                    "weights reproduce the coordinates of the point (within 2 * ncorner * EPSILON6 meshes)");
+    }
     vf_assert_id(!interior || req(sum, 1., 1.), "no weight on a bound of [0,1]: weights sum to one exactly");
-    vf_assert_id(!interior || req(sc[0], 0., DX[0]), "no weight on a bound of [0,1]: first coordinate reproduced exactly");
-    vf_assert_id(!interior || req(sc[1], 0., DX[1]), "no weight on a bound of [0,1]: second coordinate reproduced exactly");
+    vf_assert_id(!interior || req(su[0], u[0], 1.), "no weight on a bound of [0,1]: first coordinate reproduced exactly");
+    vf_assert_id(!interior || req(su[1], u[1], 1.), "no weight on a bound of [0,1]: second coordinate reproduced exactly");
   }
   vf_witness();
 }
